@@ -9,7 +9,7 @@ theorem replayOp_quiet {cfg : Cfg} {d : RState} {m : Mon} (hs : Sim cfg d m) {op
     (hmo : modelOp d op = some mo) (h1 : mo.st = d.st) (h2 : mo.pend = d.pend) (h3 : mo.done = [])
     (h4 : mo.log = []) (h5 : mo.hdr = none) (h6 : mo.released = d.released) :
     replayOp d op = some ({ d with nslow := mo.nslow, nasync := mo.nasync },
-      { status := mo.status, hang := mo.hang, map := showMap d.st, srv := showSrv d.st }) := by
+      { status := mo.status, hang := mo.hang, map := showMap d.st, srv := showSrv d.st, stale := showStale d.st }) := by
   simp only [replayOp, hmo, h1, h2, h3, h4, h5, h6, hs.settle, hs.pok.completions, List.append_nil]
 
 /-- `lookupSession` on the model's table, read on the monitor's -/
